@@ -89,10 +89,16 @@ def form_params(name):
             ra = round(rd + L, 3)
             rm = round(rd + L * f, 3)
             return (A, rho, C, rd, rm, ra)
-        return st.tuples(n(50, 2e4), fl(0.1, 0.6), n(1, 200), fl(0.5, 2.0), fl(0.5, 2.5),
-                         fl(0.15, 0.85)).map(mk)
+        floats = st.tuples(n(50, 2e4), fl(0.1, 0.6), n(1, 200), fl(0.5, 2.0), fl(0.5, 2.5),
+                           fl(0.15, 0.85)).map(mk)
+        # break points typed as whole numbers (parsed as Python ints from potable text)
+        ints = st.tuples(n(50, 2e4), fl(0.1, 0.6), n(1, 200), st.sampled_from(INT_BREAKS)).map(
+            lambda t: (t[0], t[1], t[2]) + t[3])
+        return st.one_of(floats, floats, ints)
     raise KeyError(name)
 
+
+INT_BREAKS = [(1, 2, 3), (1, 2, 4), (1, 3, 4), (2, 3, 4), (2, 3, 5), (1, 2, 5)]
 
 BUILTIN = ["bornmayer", "buck", "constant", "coul", "exponential", "exp_spline", "hbnd",
            "lj", "morse", "polynomial", "sqrt", "tang_toennies", "zbl", "zero"]
@@ -350,14 +356,19 @@ def spline_node(draw, start_end=None):
     se = start_end or form_leaf(SMOOTH)
     a = draw(se)
     b = draw(se)
-    detach = round(draw(fl(0.3, 2.0)), 3)
-    attach = round(detach + draw(fl(0.3, 2.5)), 3)
     kind = draw(st.sampled_from(["exp_spline", "buck4_spline"]))
+    if draw(st.integers(0, 4)) == 0:
+        detach, rmin_i, attach = draw(st.sampled_from(INT_BREAKS))      # whole numbers, typed as ints
+    else:
+        detach = round(draw(fl(0.3, 2.0)), 3)
+        attach = round(detach + draw(fl(0.3, 2.5)), 3)
+        rmin_i = None
     if kind == "exp_spline":
         kw = {"k": "splinekw", "name": "exp_spline", "p": []}
     else:
         f = draw(fl(0.15, 0.85))
-        kw = {"k": "splinekw", "name": "buck4_spline", "p": [round(detach + (attach - detach) * f, 4)]}
+        kw = {"k": "splinekw", "name": "buck4_spline",
+              "p": [rmin_i if rmin_i is not None else round(detach + (attach - detach) * f, 4)]}
     m1 = draw(st.sampled_from([">", ">="]))
     m2 = draw(st.sampled_from([">", ">="]))
     first_m = draw(st.sampled_from([None, None, ">"]))
@@ -409,8 +420,24 @@ def _potdef_cached(depth, has_custom, has_table, max_ranges, leaf_names, allow_s
     s_ge = st.sampled_from([0.25, 0.5, 1.0])
     gap = fl(0.2, 12.0, sig=3)
     shift = number(-1.5, 3)
-    powmod = st.tuples(_positive_leaf(), _small_exponent_leaf()).map(
+    simple_pow = st.tuples(_positive_leaf(), _small_exponent_leaf()).map(
         lambda t: {"k": "mod", "m": "pow", "args": [_single(t[0]), _single(t[1])]})
+    pos_const = fl(0.5, 2.0).map(lambda c: {"k": "form", "name": "constant", "p": [c]})
+    small_const = st.one_of(st.integers(-2, 2), fl(-1.5, 1.5)).map(lambda c: {"k": "form", "name": "constant", "p": [c]})
+    # modifiers nested inside the arguments of pow(): a(r) ** (b(r) ** c(r)), (a*b) ** c, a ** (b + c)
+    inner_pow = st.tuples(pos_const, small_const).map(
+        lambda t: {"k": "mod", "m": "pow", "args": [_single(t[0]), _single(t[1])]})
+    nested_base = st.one_of(
+        st.lists(_positive_leaf(), min_size=2, max_size=2).map(lambda a: {"k": "mod", "m": "sum", "args": [_single(x) for x in a]}),
+        st.lists(_positive_leaf(), min_size=2, max_size=2).map(lambda a: {"k": "mod", "m": "product", "args": [_single(x) for x in a]}),
+        inner_pow)
+    nested_exp = st.one_of(
+        inner_pow,
+        st.lists(small_const, min_size=2, max_size=2).map(lambda a: {"k": "mod", "m": "sum", "args": [_single(x) for x in a]}))
+    nested_pow = st.one_of(
+        st.tuples(_positive_leaf(), nested_exp), st.tuples(nested_base, _small_exponent_leaf()),
+        st.tuples(nested_base, nested_exp)).map(lambda t: {"k": "mod", "m": "pow", "args": [_single(t[0]), _single(t[1])]})
+    powmod = st.one_of(simple_pow, simple_pow, nested_pow) if depth >= 2 else simple_pow
     splmod = spline_node()
 
     def make_pd(simple_s):
